@@ -69,6 +69,9 @@ func k3(args []string) {
 	for i := 0; i < 6; i++ {
 		emit("map", fmt.Sprintf("typed n=%d", i), it.MapTypedImpl(i), it.MapTypedNative(i), "")
 	}
+	for _, c := range it.ChanLazyCases() {
+		emit("chan", c[0], c[1], c[2], "")
+	}
 	for _, c := range it.MapNaNCases() {
 		emit("map", c[0], c[1], c[2], "")
 	}
